@@ -137,7 +137,7 @@ SetOpt(S, name, v) ==
 ----------------------------------------------------------------------------
 (* resolv.conf line tokens *)
 LongJunk == Dbl("junkjunk", 9)          \* 4096 characters
-OptWord(o) == o.n \o ":" \o o.v
+OptWord(o) == IF o.v = "@word" THEN o.n ELSE o.n \o ":" \o o.v       \* "@word": an option word without ':' and value
 RECURSIVE OptWords(_)
 OptWords(os) == IF os = <<>> THEN <<>> ELSE <<OptWord(Head(os))>> \o OptWords(Tail(os))
 
@@ -184,7 +184,10 @@ ConfLines == <<
   (* 33 *) NoneLine("options"),
   (* 34 *) NoneLine("foo nameserver 10.9.9.6"),
   (* 35 *) OptLine(<<O("ndots", "1")>>),
-  (* 36 *) NsLine("[2001:db8::3]", " ", "")
+  (* 36 *) NsLine("[2001:db8::3]", " ", ""),
+  (* words that merely start with the name of an option are not that option *)
+  (* 37 *) OptLine(<<O("ndots", "3"), O("ndots7", "@word"), O("attemptsx", "4"), O("timeoutx", "@word")>>),
+  (* 38 *) OptLine(<<O("attempts", "2"), O("attempts5", "@word"), O("timeout2", "3"), O("edns-udp-sizes", "4096"), O("randomize-case0", "@word")>>)
 >>
 
 RECURSIVE ApplyOpts(_, _, _)
@@ -241,7 +244,12 @@ HostLines == <<
   (* 12 *) HostLine("10.1.1.2", <<"MixedCase">>, " ", ""),
   (* 13 *) HostLine("10.1.1.1", <<Dbl("h", 8)>>, " ", ""),        \* 256-character name
   (* 14 *) HostLine("#", <<LongJunk>>, "", ""),
-  (* 15 *) HostLine("::1", <<"beta">>, "\t\t", "\t")
+  (* 15 *) HostLine("::1", <<"beta">>, "\t\t", "\t"),
+  (* '#' starts a comment wherever it stands: the words after it are not host names *)
+  (* 16 *) HostLine("10.1.1.3", <<"eps">>, " ", "#primary beta gamma"),          \* glued to the name, more words follow
+  (* 17 *) HostLine("10.1.1.2", <<"delta">>, " ", " #beta gamma"),                \* at the start of the 2nd word
+  (* 18 *) HostLine("10.1.1.1", <<"zeta", "delta">>, "\t", " #gamma alpha\tbeta"), \* at the start of the 3rd word
+  (* 19 *) HostLine("2001:db8::5", <<"gamma", "eps">>, " ", "#x alpha beta # delta") \* glued to the 2nd name
 >>
 LookupNames == <<"alpha", "beta", "gamma", "delta", "eps", "zeta", "mixedcase", "localhost", "nosuch">>
 Lower(n) == IF n = "MixedCase" THEN "mixedcase" ELSE n
@@ -267,7 +275,8 @@ OptCalls == <<
   O("randomize-case", "0"), O("randomize-case:", "1"), O("randomize-case", "x"),
   O("edns-udp-size", "1232"), O("edns-udp-size:", "4096"), O("edns-udp-size", "100"), O("edns-udp-size", "70000"), O("edns-udp-size", "x"),
   O("max-timeouts", "2"), O("max-timeouts", "x"), O("use-vc", "1"), O("ignore-tc", ""), O("ignore-tc", "yes"),
-  O("no-such-option", "1"), O("ndotsx", "2")
+  O("no-such-option", "1"), O("ndotsx", "2"),
+  O("attemptsx", "4"), O("timeout7", "3"), O("max-inflightx", "2"), O("randomize-casex", "0"), O("edns-udp-size2", "1232")
 >>
 
 ----------------------------------------------------------------------------
